@@ -2045,6 +2045,14 @@ func (c *Cache) additionalAnswer(ctx context.Context, msg *dns.Msg) *dns.Msg {
 			}
 			return out
 		}
+		if err == nil && respCname != nil && msg.AuthenticatedData && !respCname.AuthenticatedData {
+			// AD on the outer answer vouches for the whole chain, the
+			// target's outcome included. searchAdditionalAnswer clears it
+			// when it merges records, but a target response without any
+			// record (a bare NXDOMAIN or an empty NOERROR) never gets there
+			// and would leave the alias's AD on an unvalidated denial.
+			msg.AuthenticatedData = false
+		}
 		if err == nil && (len(respCname.Answer) > 0 || len(respCname.Ns) > 0) {
 			target, child = searchAdditionalAnswer(msg, respCname)
 			// The sub-query's records are now part of the outer answer, so
